@@ -253,10 +253,10 @@ func (c *tunnelChannel) Invoke(ctx context.Context, methodName string, req, resp
 		return err
 	}
 	if err := str.SendMsg(req); err != nil {
-		return err
+		return str.abort(err)
 	}
 	if err := str.CloseSend(); err != nil {
-		return err
+		return str.abort(err)
 	}
 	err = str.RecvMsg(resp)
 	if err != nil {
@@ -852,6 +852,16 @@ func (st *tunnelClientStream) acceptServerFrame(frame tunnelpb.ServerToClientFra
 			st.finishStream(err, nil)
 		}
 	}
+}
+
+// abort ends the RPC after the request could not be sent. It returns only
+// once the stream is finished, so the server is told to cancel the RPC and
+// the locations given with grpc.Header and grpc.Trailer are no longer written
+// after the call has returned to the application.
+func (st *tunnelClientStream) abort(err error) error {
+	st.cancelStream(err)
+	<-st.doneSignal
+	return err
 }
 
 func (st *tunnelClientStream) cancelStream(err error) {
